@@ -409,4 +409,9 @@ def run(ck, tier):
     ck.assume('attribute <-> wire-field binding of the guarded quantities is decided by C01/C02')
     from .. import ownership as _own
     ck.guard(_own.rule_instance_owned, ck, cx, 'R9', _own.DECODERS[:1], "a function code registered on another server's decoder is executed here instead of being answered with exception 01", 2)
+    from .c10 import r12_do_exception_contract
+    ck.guard(r12_do_exception_contract, ck, cx, 'R11')
+    from ..share import import_findings as _imp3
+    ck.rule('R12', 'the RTU frame length oracle sizes every request the spec allows a client to send, up to the 256-byte ADU limit (shared with C03 R3)')
+    _imp3(ck, 'C03', 'R12', ('R3',), 'an over-long or boundary-size request is cut wrongly, fails its CRC and gets no answer instead of the exception response', detail_prefixes=('rtuFrameSize-shape', 'size-from-buffered-length', 'custom-size-override', 'fifo-size', 'mei-size-shape', 'base-size-shape'))
     return cx.idx
